@@ -287,13 +287,21 @@ class BinopStream(Stream):
         self.selector = selector
         self.a = a
         self.b = b
+        self._ended = False
 
     def next(self, inval=None):
-        a = self.a.next(inval)  # raises StopStream
-        b = self.b.next(inval)
+        if self._ended:
+            raise StopStream
+        try:
+            a = self.a.next(inval)  # raises StopStream
+            b = self.b.next(inval)
+        except StopStream:
+            self._ended = True  # Don't pull the longer operand again.
+            raise
         return self.selector(a, b)
 
     def reset(self):
+        self._ended = False
         self.a.reset()
         self.b.reset()
 
@@ -312,17 +320,25 @@ class NaropStream(Stream):
         self.selector = selector
         self.a = a
         self.args = args  # All args are streams (cast done by _compose_narop).
+        self._ended = False
 
     def next(self, inval=None):
-        a = self.a.next(inval)  # raises StopStream
-        args = []
-        res = None
-        for item in self.args:
-            res = item.next(inval)  # raises StopStream
-            args.append(res)
+        if self._ended:
+            raise StopStream
+        try:
+            a = self.a.next(inval)  # raises StopStream
+            args = []
+            res = None
+            for item in self.args:
+                res = item.next(inval)  # raises StopStream
+                args.append(res)
+        except StopStream:
+            self._ended = True  # Don't pull the longer operands again.
+            raise
         return self.selector(a, *args)
 
     def reset(self):
+        self._ended = False
         self.a.reset()
         for item in self.args:
             item.reset()
